@@ -8,20 +8,20 @@ from vlib.engine import Violation
 PID = "C10"
 N = "Mmtk.OOM."
 THEOREMS = [N + t for t in [
-    # the loop on this tree
-    "oom_only_after_gc_or_obvious", "oom_returns_null", "no_block_when_not_safepoint",
-    "not_safepoint_one_attempt", "overcommit_gets_pages",
-    "no_oom_call_when_disallowed_partial", "F5_witness", "no_oom_call_when_disallowed_FAILS",
-    "obvious_fails_immediately_partial", "F6_diverges", "F6_witness_diverges", "obvious_fails_immediately_FAILS",
-    # the repaired loop
-    "fixed_oom_only_after_gc_or_obvious", "fixed_no_oom_call_when_disallowed", "fixed_oom_returns_null",
-    "fixed_obvious_fails_immediately", "fixed_no_block_when_not_safepoint", "fixed_overcommit_gets_pages",
-    "fixed_terminates", "fixed_terminates_obvious",
+    # the loop on this tree (after the two `fix:` commits)
+    "oom_only_after_gc_or_obvious", "no_oom_call_when_disallowed", "oom_returns_null",
+    "obvious_fails_immediately", "no_block_when_not_safepoint", "not_safepoint_one_attempt",
+    "overcommit_gets_pages", "terminates", "terminates_obvious",
+    # the loop of the pinned tree: why the repairs were needed
+    "old_oom_only_after_gc_or_obvious", "old_oom_returns_null", "old_no_block_when_not_safepoint",
+    "old_not_safepoint_one_attempt", "old_overcommit_gets_pages",
+    "old_no_oom_call_when_disallowed_partial", "F5_witness", "old_no_oom_call_when_disallowed_FAILS",
+    "old_obvious_fails_immediately_partial", "F6_diverges", "F6_witness_diverges", "old_obvious_fails_immediately_FAILS",
 ]]
 
 META = {
-    "text": "The retry loop of Allocator::alloc_slow_inline (with handle_obvious_oom_request, Space::acquire / not_acquiring) is a Lean state machine whose unknowns (poll, page resource, the global emergency_collection / allocation_success flags) are per-iteration environment answers; the clauses are proved for every request, every environment and every fuel. Two clauses are FALSE on this tree and are stated as such with kernel-checked witnesses (F5: the emergency branch calls out_of_memory although allow_oom_call=false; F6: a request larger than the heap with allow_oom_call=false at a safepoint never leaves the loop), their true parts are proved as ..._partial, and all clauses + termination are proved for the minimally repaired loop. Tie to the code: hx_gc programs fill small heaps of 9 plans with live data and issue alloc_with_options for every option combination and size class; every observation (result, out_of_memory calls, block_for_gc calls, pauses) is checked by a Python oracle (the clauses themselves) and must be a possible run of the Lean model (`oom accept`). Both defects are replayed on the real code by dedicated programs.",
-    "note": "Trusted: Lean kernel; hx_gc/VerifVM counters (out_of_memory, block_for_gc, pauses); the model's environment abstraction (one Space::acquire per alloc_slow_once; mutator thread; stress-GC paths not distinguished). GC outcomes are environment choices: termination is proved for the repaired loop under an explicit GC-progress hypothesis. Request sizes are limited to < 4 GiB by the harness object header.",
+    "text": "The retry loop of Allocator::alloc_slow_inline (with handle_obvious_oom_request, Space::acquire / not_acquiring) is a Lean state machine whose unknowns (poll, page resource, the global emergency_collection / allocation_success flags) are per-iteration environment answers; the clauses are proved for every request, every environment and every fuel. Two clauses were FALSE on the pinned tree (F5: the emergency branch called out_of_memory although allow_oom_call=false; F6: a request larger than the heap with allow_oom_call=false at a safepoint never left the loop): both were repaired by `fix:` commits, the model of the old loop is kept (`slowPathOld`) with kernel-checked witnesses, and all clauses + termination (under an explicit GC-progress hypothesis) are proved for the loop on this tree. Tie to the code: hx_gc programs fill small heaps of 9 plans with live data and issue alloc_with_options for every option combination and size class; every observation (result, out_of_memory calls, block_for_gc calls, pauses) is checked by a Python oracle (the clauses themselves) and must be a possible run of the Lean model (`oom accept`). The three defects found (F5, F6, and the large-object space indexing past its free list when pushed beyond its address range) are repaired; their programs stay in the corpus as regressions.",
+    "note": "Trusted: Lean kernel; hx_gc/VerifVM counters (out_of_memory, block_for_gc, pauses); the model's environment abstraction (one Space::acquire per alloc_slow_once; mutator thread; stress-GC paths not distinguished). GC outcomes are environment choices: termination is proved under an explicit GC-progress hypothesis. Request sizes are limited to < 4 GiB by the harness object header.",
     "technique": "Lean 4 proof over a transcribed loop model (all environments), counter-example witnesses by kernel `decide`, differential acceptance of real runs by the model",
     "category": "proof",
 }
@@ -94,9 +94,8 @@ def size_of(rng, cls, heap):
 
 
 def gen_program(rng, plan, heap, workers, tag):
-    """Random stream. Avoids the two known defects: no (safepoint=1, oomcall=0) request that is
-    obviously too large (F6), and no (overcommit=0, safepoint=1, oomcall=0) request that cannot be
-    satisfied after a GC (F5)."""
+    """Random stream: every option combination in every phase (the F5/F6 combinations were excluded
+    until the two `fix:` commits)."""
     p = Prog(plan, heap, workers, tag)
     # a Default object that survives every GC (MarkCompact needs a survivor), slot 0
     p.add(f"alloc 0 {p.next_id} 0 64 8 0 Default 0"); p.next_id += 1
@@ -107,10 +106,8 @@ def gen_program(rng, plan, heap, workers, tag):
         cls = rng.choice(["small", "small", "medium"]) if plan != "NoGC" else "small"
         pay, sem = size_of(rng, cls, heap)
         p.alloco(pay, sem, 60 + rng.randrange(4), opts, cls, "A")
-    # obviously too large requests (no GC involved): every combination but F6's
+    # obviously too large requests (no GC involved): every combination
     for opts in combos:
-        if opts[1] == 1 and opts[2] == 0:
-            continue
         cls = rng.choice(["over", "huge"])
         pay, sem = size_of(rng, cls, heap)
         p.alloco(pay, sem, 59, opts, cls, "A")
@@ -128,9 +125,6 @@ def gen_program(rng, plan, heap, workers, tag):
     rng.shuffle(combos)
     for opts in combos + combos[:3]:
         cls = rng.choice(["small", "medium", "big", "over", "huge"])
-        obvious_cls = cls in ("over", "huge")
-        if opts[1] == 1 and opts[2] == 0 and (obvious_cls or opts[0] == 0):
-            continue        # F6 / F5 territory: dedicated corpus programs only
         pay, sem = size_of(rng, cls, heap)
         p.alloco(pay, sem, 57 if opts[0] == 0 else 50 + rng.randrange(6), opts, cls, "C")
     # phase D: half of the chunks become garbage; a GC now frees memory
@@ -140,31 +134,30 @@ def gen_program(rng, plan, heap, workers, tag):
         p.add(f"root 0 {slot} null")
     rng.shuffle(combos)
     for opts in combos:
-        if opts == (0, 1, 0) and plan in ("GenCopy", "GenImmix", "StickyImmix"):
-            # a nursery GC need not free mature chunks: make sure the memory IS free, this
-            # combination must not reach F5 (full-heap plans: the first blocking GC frees it)
-            p.add("gc 0 1")
         p.alloco(chunk // 2 + rng.randrange(0, 4096), "Los", 57, opts, "medium", "D")
     return p
 
 
 def corpus_f6():
-    p = Prog("SemiSpace", 8388608, 1, "known:F6")
+    p = Prog("SemiSpace", 8388608, 1, "corpus:F6")
     p.lines[3] = "cfg watchdog 8"
     p.alloco(20000000, "Los", 8, (0, 1, 0), "over", "known")
     return p
 
 
 def corpus_overcommit_oob():
-    p = Prog("SemiSpace", 4194304, 1, "known:overcommit-oob")
+    p = Prog("SemiSpace", 4194304, 1, "corpus:overcommit-exhausts-space")
     p.oc_budget = 1 << 30
     for k in range(3):
-        p.alloco(1400000, "Los", 1 + k, (1, 1, 1), "big", "known")
+        i = p.alloco(1400000, "Los", 1 + k, (1, 1, 1), "big", "known")
+    # the third request needs a chunk beyond the address range of the space (2 x heap, one chunk of it holds the
+    # free list): the page resource cannot deliver, which clause 5 does not promise (Lean: hypothesis pagesOk)
+    p.meta[i]["space_exhausted"] = True
     return p
 
 
 def corpus_f5():
-    p = Prog("SemiSpace", 8388608, 1, "known:F5")
+    p = Prog("SemiSpace", 8388608, 1, "corpus:F5")
     for k in range(8):
         p.add(f"alloc 0 {p.next_id} 0 1000000 8 0 Los {1 + k}"); p.next_id += 1
     p.alloco(1000000, "Los", 9, (0, 1, 0), "medium", "known")
@@ -223,7 +216,7 @@ def oracle(o):
         key = KEY_F6 if (o["obvious"] and oc == 0 and sp == 1) else "gc:alloc-timeout"
         return [(key, f"alloc_with_options did not return: {tag}")]
     if o["res"] == "error":
-        if ov == 1 and o["raw"].startswith("panic:oob"):
+        if o["raw"].startswith("panic:oob"):
             return [(KEY_OVERCOMMIT_OOB, f"allow_overcommit request panicked (index out of bounds in RawMemoryFreeList: the space's free list has no room left): {tag}")]
         return [("gc:alloc-error:" + o["raw"].split(" ")[0], f"unexpected answer `{o['raw'][:200]}`: {tag}")]
     oom, blk, gcs, null = o["oom"], o["blocked"], o["gcs"], o["res"] == "null"
@@ -239,7 +232,7 @@ def oracle(o):
         bad.append(("gc:blocked-off-safepoint", f"block_for_gc called {blk}x with at_safepoint=false: {tag}"))
     if gcs < blk:
         bad.append(("gc:block-without-pause", f"block_for_gc returned {blk}x but only {gcs} pauses completed: {tag}"))
-    if ov == 1 and not o["obvious"] and (null or blk > 0):
+    if ov == 1 and not o["obvious"] and (null or blk > 0) and not o.get("space_exhausted"):
         bad.append(("gc:overcommit-failed", f"allow_overcommit request {'returned null' if null else 'blocked'} (blocked={blk}): {tag}"))
     if o["obvious"]:
         if not null or blk > 0 or gcs > 0 and blk > 0:
@@ -251,9 +244,9 @@ def oracle(o):
     return bad
 
 
-def accept_line(o, fixed=False):
+def accept_line(o, old=False):
     ov, sp, oc = o["opts"]
-    return (f"oom {'acceptfixed' if fixed else 'accept'} {ov} {sp} {oc} {int(o['obvious'])} {o['res']} "
+    return (f"oom {'acceptold' if old else 'accept'} {ov} {sp} {oc} {int(o['obvious'])} {o['res']} "
             f"{o.get('oom', 0)} {o.get('blocked', 0)} {o.get('gcs', 0)}")
 
 
@@ -281,7 +274,7 @@ def selftest(observations):
     muts = []
     o = pick(lambda o: o["oom"] == 1 and not o["obvious"] and o["opts"] == [0, 1, 1])
     if o:
-        m = dict(o, opts=[0, 1, 0]); muts.append(("flip oomcall to 0 on an OOM observation", m, "oracle+fixedmodel"))
+        m = dict(o, opts=[0, 1, 0]); muts.append(("flip oomcall to 0 on an OOM observation", m, "oracle+model"))
         m = dict(o, res="addr"); muts.append(("OOM observation but non-null result", m, "oracle+model"))
         m = dict(o, blocked=0, gcs=0); muts.append(("OOM observation without any block_for_gc", m, "oracle+model"))
         m = dict(o, oom=2); muts.append(("out_of_memory called twice", m, "oracle+model"))
@@ -299,13 +292,13 @@ def selftest(observations):
     o = pick(lambda o: o["blocked"] >= 1 and o["res"] == "addr")
     if o:
         m = dict(o, gcs=0); muts.append(("block_for_gc returned without a pause", m, "oracle+model"))
-    lines = [accept_line(m) for _, m, _ in muts] + [accept_line(m, fixed=True) for _, m, _ in muts]
+    lines = [accept_line(m) for _, m, _ in muts] + [accept_line(m, old=True) for _, m, _ in muts]
     ans = model_answers(lines)
     report, failures = [], []
     for k, (what, m, expect) in enumerate(muts):
         orc = bool(oracle(m))
         mod, modf = ans[k] == "reject", ans[len(muts) + k] == "reject"
-        caught = {"oracle": orc, "model": mod, "fixedmodel": modf}
+        caught = {"oracle": orc, "model": mod, "oldmodel": modf}
         ok = all(caught[w] for w in expect.split("+"))
         report.append({"mutation": what, "expected_to_be_caught_by": expect, "caught": caught, "ok": ok})
         if not ok:
@@ -365,8 +358,8 @@ def main(argv=None):
                                     found_input=False, broken="hx_gc build"))
         return E.finish(PID, a.tier, a.seed, t0, lean, {}, violations, level="proof of the model, partial w.r.t. the code")
     progs = build_programs(a.tier, a.seed)
-    known = [] if os.environ.get("C10_SKIP_KNOWN") == "1" else [corpus_f6(), corpus_f5(), corpus_overcommit_oob()]
-    allp = known + progs
+    corpus = [corpus_f6(), corpus_f5(), corpus_overcommit_oob()]     # regressions of the three repaired defects
+    allp = corpus + progs
     with ThreadPoolExecutor(5) as ex:
         results = list(ex.map(lambda p: run_prog(exe, p), allp))
     observations, crashed = [], []
@@ -377,7 +370,7 @@ def main(argv=None):
         timed_out = any(o["res"] == "timeout" for o in obs)
         if p.tag.startswith("known"):
             # dedicated programs: only the observation of the request under test counts
-            obs = obs[-1:] if p.tag != "known:overcommit-oob" else ([o for o in obs if o["res"] == "error"][:1] or obs[-1:])
+            obs = obs[-1:] if p.tag != "corpus:overcommit-exhausts-space" else ([o for o in obs if o["res"] == "error"][:1] or obs[-1:])
         observations += obs
         if p.tag.startswith("known"):
             pass
@@ -398,7 +391,7 @@ def main(argv=None):
     # Lean acceptance
     try:
         ans = model_answers([accept_line(o) for o in observations if o["res"] != "error"])
-        ansf = model_answers([accept_line(o, fixed=True) for o in observations if o["res"] != "error"])
+        ansf = model_answers([accept_line(o, old=True) for o in observations if o["res"] != "error"])
     except RuntimeError as e:
         ans, ansf = [], []
         violations.append(Violation("model-driver-broken", str(e), None, None, None, False, broken="mmtk_model oom"))
@@ -428,8 +421,8 @@ def main(argv=None):
             dist[k] = dist.get(k, 0) + 1
     shapes = {(tuple(o["opts"]), o["obvious"], o["res"], o.get("oom", 0), o.get("blocked", 0)) for o in observations}
     known_obs = [{"program": o["prog"], "alloco": o["case"]["lines"][o["line_no"]], "impl": o["raw"],
-                  "model_on_this_tree": o.get("model"), "repaired_model": o.get("model_fixed")}
-                 for o in observations if o["prog"].startswith("known")]
+                  "model_on_this_tree": o.get("model"), "model_of_pinned_tree": o.get("model_fixed")}
+                 for o in observations if o["prog"].startswith("corpus")][-6:]
     corr = {
         "evaluations": len(observations),
         "distinct_nontrivial": len({s for s in shapes if s[2] != "addr" or s[3] or s[4]}),
@@ -439,12 +432,12 @@ def main(argv=None):
         "traces_validated_against_impl": len(ans) - rejected,
         "observations_nontrivial": sum(1 for o in observations if nontrivial(o)),
         "oracle_failures": n_bad, "model_rejections": rejected,
-        "observations_impossible_after_repair": sorted(set(rejected_fixed)),
-        "known_defect_programs": known_obs,
+        "observations_impossible_before_the_repairs": sorted(set(rejected_fixed)),
+        "repaired_defect_regression_programs": known_obs,
         "mutation_selftest": st_report,
         "crashed_programs": crashed,
         "distribution": dict(sorted(dist.items())),
-        "rule": "per program: plan x heap(2..16 MB) x workers; phase A (empty heap): 8 option combinations x {small,medium} + obviously-too-large {2.5x heap, ~4 GB}; phase B: 16+ live chunks of heap/12 with default options until the heap runs out; phase C (full heap): option combinations x {small, medium, heap/3, >heap, ~4GB}; phase D: half of the chunks dropped, GC frees memory. Observation per alloc_with_options: result, out_of_memory calls, block_for_gc calls, pauses. distinct = distinct (options, obvious, result, oom, blocked) tuples other than plain success. Excluded from the random stream (one dedicated program each): obviously-too-large with safepoint=1,oomcall=0 (F6) and unsatisfiable with overcommit=0,safepoint=1,oomcall=0 (F5). Sizes < 4 GiB (harness object header).",
+        "rule": "per program: plan x heap(2..16 MB) x workers; phase A (empty heap): 8 option combinations x {small,medium} + obviously-too-large {2.5x heap, ~4 GB}; phase B: 16+ live chunks of heap/12 with default options until the heap runs out; phase C (full heap): option combinations x {small, medium, heap/3, >heap, ~4GB}; phase D: half of the chunks dropped, GC frees memory. Observation per alloc_with_options: result, out_of_memory calls, block_for_gc calls, pauses. distinct = distinct (options, obvious, result, oom, blocked) tuples other than plain success. Corpus (runs first): the programs of the three repaired defects (F6 obviously-too-large with safepoint=1,oomcall=0; F5 unsatisfiable with overcommit=0,safepoint=1,oomcall=0; overcommit beyond the address range of the large-object space). Sizes < 4 GiB (harness object header).",
         "hx_gc_build_s": build_s, "lean_s": lean.get("lean_s"),
     }
     return E.finish(PID, a.tier, a.seed, t0, lean, corr, violations,
@@ -452,7 +445,7 @@ def main(argv=None):
                     assumptions=["mutator thread (the collector branch of alloc_slow_inline returns the first result)",
                                  "alloc_slow_once performs at most one Space::acquire (true of the bump, large-object, immix and free-list allocators read)",
                                  "every block_for_gc returns (C14); GC outcomes are environment answers",
-                                 "termination of the repaired loop: after finitely many GCs memory is found or the emergency flag is raised (Progress)",
+                                 "termination: after finitely many GCs memory is found or the emergency flag is raised (Progress)",
                                  "will_oom_on_alloc is constant during a request (fixed maximal heap size)"],
                     trusted=["Lean 4.33.0 kernel", "axioms ⊆ {propext, Classical.choice, Quot.sound} (audited per theorem this run)",
                              "hand-written Lean model Model/OOM.lean, tied to the code by the hx_gc differential run recorded below (sampling)",
